@@ -98,8 +98,8 @@ func checkC03(c *Ctx) {
 			c.viol("R1", "attempt wait has a timer case", sel, "the select waiting for the Update has no time.After case: a hanging store call is never given up")
 		} else {
 			got := m.Gated(dur)
-			want := fmt.Sprintf("select[(%s / 2) if {NOT ((%s / 2) < 1000000000)} | 1000000000 if {((%s / 2) < 1000000000)}]", H, H, H)
-			c.check(got == want, "R1", "per-attempt time-out is max(H/2, 1s)", sel, "time-out expression %s; required %s", got, want)
+			okForm, want := timeoutFormOK(got, H)
+			c.check(okForm, "R1", "per-attempt time-out is max(H/2, 1s)", sel, "time-out expression %s; required %s (or builtin max of the same operands)", got, want)
 		}
 	}
 	c.floor("R1", 4)
@@ -438,4 +438,49 @@ func checkC03(c *Ctx) {
 
 	// ---- R5 (shared) ----------------------------------------------------------------
 	natsConflictRule(c, "R5")
+}
+
+// attemptTimeoutRule is the time-out clause of C03-R1, shared with C07-R4.
+func attemptTimeoutRule(c *Ctx, rule string) {
+	m := c.M
+	rf := m.refreshLoopFn()
+	if rf == nil {
+		c.undecided(rule, "refresh loop", nil, "not found")
+		return
+	}
+	H := m.cfgPath("HeartbeatInterval")
+	n := 0
+	eachInstr(rf, func(in ssa.Instruction) {
+		sel, ok := in.(*ssa.Select)
+		if !ok || !sel.Blocking {
+			return
+		}
+		for _, st := range sel.States {
+			if call, ok := isCallTo(st.Chan, "time.After"); ok {
+				n++
+				got := m.Gated(call.Call.Args[0])
+				okForm, want := timeoutFormOK(got, H)
+				c.check(okForm, rule, "per-attempt time-out is max(H/2, 1s)", sel, "time-out expression %s; required %s (or builtin max of the same operands)", got, want)
+			}
+		}
+	})
+	if n == 0 {
+		c.viol(rule, "per-attempt time-out exists", firstInstr(rf), "no time.After case in the refresh loop's selects")
+	}
+}
+
+// timeoutFormOK: the expression is max(H/2, 1s) in one of the accepted idioms (if-chain or builtin max).
+func timeoutFormOK(got, H string) (bool, string) {
+	want := fmt.Sprintf("select[(%s / 2) if {NOT ((%s / 2) < 1000000000)} | 1000000000 if {((%s / 2) < 1000000000)}]", H, H, H)
+	alts := []string{
+		want,
+		fmt.Sprintf("call builtin.max((%s / 2), 1000000000)", H),
+		fmt.Sprintf("call builtin.max(1000000000, (%s / 2))", H),
+	}
+	for _, a := range alts {
+		if got == a {
+			return true, want
+		}
+	}
+	return false, want
 }
